@@ -1194,7 +1194,8 @@ def set_binop(I, st, op, ea, eb):
         r = [x for x in a if x not in b] + [x for x in b if x not in a]
     else:
         raise Unsupported("set operator " + op)
-    return st.alloc(SetE(r))
+    # the result of a binary set operator has the type of the LEFT operand (set | frozenset -> set, frozenset | set -> frozenset)
+    return st.alloc(FrozenSetE(r) if ea.frozen else SetE(r))
 
 
 from .attrs import getattr, setattr, delattr, call_builtin_class, make_builtins, make_ext_modules  # noqa: E402,F401
